@@ -243,9 +243,25 @@ async fn run_session<T: RequestHandler>(
     mut handler: TcpServerConnectionHandler,
     decode: DecodeLevel,
     handlers: ServerHandlerMap<T>,
-    commands: tokio::sync::mpsc::Receiver<ServerCommand>,
+    mut commands: tokio::sync::mpsc::Receiver<ServerCommand>,
 ) {
-    match handler.handle(socket).await {
+    // a session that is evicted or shut down while its (TLS) handshake is still in progress
+    // must end as well: the server signals both by closing the command channel
+    let mut decode = decode;
+    let result = tokio::select! {
+        result = handler.handle(socket) => result,
+        _ = async {
+            while let Some(command) = commands.recv().await {
+                if let ServerCommand::ChangeDecoding(level) = command {
+                    decode = level;
+                }
+            }
+        } => {
+            tracing::warn!("session from {} closed before it was established", addr);
+            return;
+        }
+    };
+    match result {
         Err(err) => {
             tracing::warn!("error from {}: {}", addr, err);
         }
